@@ -152,7 +152,7 @@ def generate(seed, tier):
         opts = gen_opts(r, dumper.startswith('C'))
         case['values'] = [values.hash_order_free(v, opts.get('sort_keys', True)) for v in case['values']]
         case.update(api=api, dumper=dumper, opts=opts,
-                    stream={'kind': r.choice(['text', 'binary']), 'flush': r.random() < 0.7},
+                    stream={'kind': r.choice(['text', 'binary', 'text', 'binary', 'none']), 'flush': r.random() < 0.7},
                     encoding=r.choice([None, None, 'utf-8', 'utf-16-le', 'utf-16-be']),
                     gen_docs=r.random() < 0.5)
         if api in ('dump', 'safe_dump'):
@@ -305,7 +305,11 @@ def run_once(yaml, case, world, payload, faults, sticky=False):
     log = []
     if case['side'] == 'dump':
         wfault = [(i, e) for (ch, i), e in plan.faults.items() if ch == 'w']
-        w = SimWriter(case['stream']['kind'], case['stream']['flush'], fault=wfault[0] if wfault else None, log=log, sticky=sticky)
+        to_none = case['stream']['kind'] == 'none'     # stream=None: the library returns the text itself
+        w = SimWriter('text' if to_none else case['stream']['kind'], case['stream']['flush'], fault=wfault[0] if wfault else None,
+                      log=log, sticky=sticky)
+        ws = None if to_none else w
+        returned = None
         api = case['api']
         opts = dict(case['opts'])
         if 'version' in opts:
@@ -321,23 +325,23 @@ def run_once(yaml, case, world, payload, faults, sticky=False):
         src = docs() if case.get('gen_docs') else payload
         try:
             if api == 'dump':
-                yaml.dump(payload[0], w, Dumper=D, encoding=case['encoding'], **opts)
+                returned = yaml.dump(payload[0], ws, Dumper=D, encoding=case['encoding'], **opts)
             elif api == 'safe_dump':
-                yaml.safe_dump(payload[0], w, encoding=case['encoding'], **opts)
+                returned = yaml.safe_dump(payload[0], ws, encoding=case['encoding'], **opts)
             elif api == 'dump_all':
-                yaml.dump_all(src, w, Dumper=D, encoding=case['encoding'], **opts)
+                returned = yaml.dump_all(src, ws, Dumper=D, encoding=case['encoding'], **opts)
             elif api == 'serialize_all':
                 o = {k: v for k, v in opts.items() if k not in ('default_style', 'default_flow_style', 'sort_keys')}
-                yaml.serialize_all(src, w, Dumper=D, encoding=case['encoding'], **o)
+                returned = yaml.serialize_all(src, ws, Dumper=D, encoding=case['encoding'], **o)
             else:
                 o = {k: v for k, v in opts.items() if k in ('canonical', 'indent', 'width', 'allow_unicode', 'line_break')}
-                yaml.emit(src, w, Dumper=D, **o)
+                returned = yaml.emit(src, ws, Dumper=D, **o)
             obs['returned'] = True
         except kernel.Hang:
             raise
         except BaseException as exc:
             obs['exc'] = exc
-        obs['written'] = w.value()
+        obs['written'] = w.value() if not to_none else (returned if returned is not None else ('' if not case['encoding'] or case['api'] == 'emit' else b''))
         obs['n_w'] = w.calls
         obs['wlog'] = [(e[1], e[4]) for e in log]
     else:
@@ -467,6 +471,7 @@ def execute(case):
 
     def one_fault(point, kind, injected):
         itype, iargs = type(injected), injected.args
+        istate = dict(vars(injected)) if hasattr(injected, '__dict__') else {}
         # every other stream fault point is sticky: the stream keeps failing after the injected call
         sticky = point[0] in ('r', 'w') and kernel.H(case['salt'], 'sticky', point[0], point[1]) % 2 == 1
         if sticky:
@@ -495,6 +500,10 @@ def execute(case):
             return {'class': 'exception-replaced', 'detail': dict(where, got=exc_summary(yaml, exc), chain=chain)}
         if type(exc) is not itype or exc.args != iargs:
             return {'class': 'exception-mutated', 'detail': dict(where, args=repr(exc.args)[:200])}
+        state = dict(vars(exc)) if hasattr(exc, '__dict__') else {}
+        if set(state) != set(istate) or any(state[k] is not istate[k] and state[k] != istate[k] for k in state):
+            changed = sorted(k for k in set(state) | set(istate) if k not in state or k not in istate or (state[k] is not istate[k] and state[k] != istate[k]))
+            return {'class': 'exception-state-changed', 'detail': dict(where, attributes=changed)}
         if exc.__cause__ is not None or getattr(exc, '__notes__', None):
             return {'class': 'exception-decorated', 'detail': dict(where, cause=repr(exc.__cause__), notes=getattr(exc, '__notes__', None))}
         if case['side'] == 'dump':
